@@ -22,6 +22,7 @@
   the first non-empty unknown declaration behind it (behind the start of the input if there is no declaration).
 -/
 import AHP.Model.Tree
+import AHP.Spec.Build
 namespace AHP.Spec
 open AHP
 
@@ -110,5 +111,66 @@ def doctypeOfParts (base : Option Str) (us : List Str) : Option Str :=
     unknown declaration behind it (behind the start of the input when there is no declaration) -/
 def doctypeRead (ts : List Token) : Option Str :=
   doctypeOfParts (lastDecl ts) (unknownsAfterLastDecl ts)
+
+/-! ### the whole document, as the public API shows it, WITHOUT `intake` and `stepD`
+
+  `Spec.build` (Spec/Build.lean) specifies the tree SHAPE independently (no open-element stack) but builds every
+  element's store with the model's `intake`.  `buildO` is the same recursive descent producing what the API shows
+  (`OTree`: names, listed attribute pairs, self-closing flags, blocks) with the attribute list of an element given
+  by the attribute clause above and the doctype by `doctypeRead`. -/
+
+/-- what the public API shows of a tree -/
+inductive OTree where
+  | text (s : Str)
+  | elem (name : Str) (attrs : List Attr) (sc : Bool) (kids : List OTree)
+  deriving Repr, Inhabited
+
+/-- the attribute pairs an element made from the start tag's raw list shows -/
+def elemAttrs (a : List Attr) : List Attr := normalise (attrs (liveStyle a))
+
+def itemsO : Nat → List Str → List Token → List OTree × List Token
+  | 0, _, ts => ([], ts)
+  | _ + 1, _, [] => ([], [])
+  | k + 1, open_, .end_ n :: ts =>
+      if open_.contains n then ([], .end_ n :: ts) else itemsO k open_ ts
+  | k + 1, open_, .start n a :: ts =>
+      let n := lower n
+      if isVoid n then
+        let r := itemsO k open_ ts
+        (.elem n (elemAttrs a) true [] :: r.1, r.2)
+      else
+        let c := itemsO k (n :: open_) ts
+        let s := itemsO k open_ (afterContent n c.2)
+        (.elem n (elemAttrs a) false c.1 :: s.1, s.2)
+  | k + 1, open_, .startend n a :: ts =>
+      let r := itemsO k open_ ts
+      (.elem (lower n) (elemAttrs a) true [] :: r.1, r.2)
+  | k + 1, open_, t :: ts =>
+      let r := itemsO k open_ ts
+      match textOf t with
+      | some s => (.text s :: r.1, r.2)
+      | none => r
+
+def singleO : Nat → List Token → Option (Option OTree)
+  | 0, _ => none
+  | _ + 1, [] => some none
+  | k + 1, .start n a :: ts =>
+      let n := lower n
+      if isVoid n then
+        if epilogOk ts then some (some (.elem n (elemAttrs a) true [])) else none
+      else
+        let c := itemsO k [n] ts
+        if epilogOk (afterContent n c.2) then some (some (.elem n (elemAttrs a) false c.1)) else none
+  | _ + 1, .startend n a :: ts =>
+      if epilogOk ts then some (some (.elem (lower n) (elemAttrs a) true [])) else none
+  | k + 1, t :: ts => if isOuter t then singleO k ts else none
+
+/-- the document the specification assigns to a token sequence, as the API shows it: doctype, root, and whether the
+    invisible wrapper was needed -/
+def buildO (toks : List Token) : (Option Str × Option OTree) × Bool :=
+  match singleO (toks.length + 1) toks with
+  | some r => ((doctypeRead toks, r), false)
+  | none =>
+    ((doctypeRead toks, some (.elem wrapperName [] false (itemsO (toks.length + 1) [] (topTokens toks)).1)), true)
 
 end AHP.Spec
